@@ -116,6 +116,14 @@ Apis_C28r == {Api("Connect"), OutOfPlace(SleepApi(10)), OutOfPlace(Api("Disconne
               OutOfPlace(ApiT("Register", AB, 0, ""))}
 Gw_C28r == {Gw("CONNACK", "none"), Gw("DISCONNECT", "none"), GwAck("REGACK", "pend", 7)}
 
+(* C28g: a gateway that refuses again and again (REGACK / SUBACK "congestion" for the exchange of the one data
+   call, also after every retransmission); every schedule executed *)
+Apis_C28g == {ApiT("Register", AB, 0, ""), ApiT("Subscribe", AB, 1, "h1")}
+Gw_C28g == {GwRc("REGACK", "any", 1), GwRc("SUBACK", "any", 1), GwAck("REGACK", "pend", 7)}
+(* C33d: KeepAlive shorter than the retry budget of a ping: late PINGRESPs *)
+Apis_C33d == {[ApiT("Publish", <<"xy">>, 0, "") EXCEPT !.short = TRUE, !.stid = 30841]}
+Gw_C33d == {Gw("PINGRESP", "none")}
+
 ---- (* C33: keep-alive against sleep / disconnect / other calls *)
 Apis_C33 == {Api("Connect"), SleepApi(10), Api("Disconnect"), Api("Close"),
              [ApiT("Publish", <<"xy">>, 1, "") EXCEPT !.short = TRUE, !.stid = 30841]}
